@@ -90,7 +90,11 @@ static void aligned_boundary(long c, ShadowHeap& h, char* desc) {
 static void scenario(long c) {
     ShadowHeap h;
     if (c < NA) { for (size_t n = (size_t)c * 64; n < (size_t)(c + 1) * 64; n++) one_size(n, h); vf_outcome("sizes %ld..%ld", c * 64, c * 64 + 63); }
-    else if (c < NA + NB) { size_t n = bsizes[c - NA]; one_size(n, h); vf_outcome("size %zu", n); }
+    else if (c < NA + NB) { size_t n = bsizes[c - NA]; one_size(n, h); vf_outcome("size %zu", n);
+        if (c == NA) {   /* calloc whose nobj * size is not representable must fail, whichever factor is the large one; a product that is representable is honoured */
+            static const size_t OV[][2] = {{2, (size_t)1 << 63}, {(size_t)1 << 63, 2}, {SIZE_MAX / 3 + 1, 3}, {3, SIZE_MAX / 3 + 1}, {((size_t)1 << 40) + 5, (size_t)1 << 24}, {16, ((size_t)1 << 60) + 4}, {1000, SIZE_MAX / 1000 + 17}, {(size_t)1 << 32, (size_t)1 << 32}, {SIZE_MAX, SIZE_MAX}, {SIZE_MAX / 2, 3}, {65537, SIZE_MAX / 65536}};
+            for (auto& o : OV) { void* p = scalable_calloc(o[0], o[1]); if (p) vf_fail("scalable_calloc(%zu, %zu) returned a block (scalable_msize %zu) although nobj * size is not representable", o[0], o[1], scalable_msize(p)); }
+            void* q = scalable_calloc((size_t)1 << 20, 3); if (!q) vf_fail("scalable_calloc(2^20, 3) failed"); if (scalable_msize(q) < ((size_t)3 << 20)) vf_fail("scalable_calloc(2^20, 3): msize %zu", scalable_msize(q)); scalable_free(q); } }
     else if (c < NA + NB + NC) { long i = c - NA - NB; size_t a = aligns[i % aligns.size()], n = (size_t[]){1, 8, 63, 1000, 8129, 70000, 1u << 21}[i / aligns.size()]; one_align(a, n, h); vf_outcome("align %zu size %zu", a, n); }
     else if (c < NA + NB + NC + NE) { region_share(c - NA - NB - NC, h); vf_outcome("region share %ld", c - NA - NB - NC); }
     else if (c < NA + NB + NC + NE + NF) { char d[96]; aligned_boundary(c - NA - NB - NC - NE, h, d); vf_outcome("%s", d); }
